@@ -126,16 +126,66 @@ Proof.
   - right. apply H2. apply py_in_not_In. exact E.
 Qed.
 
-(* secure web proxy outer connection: len(layers) = 2 and layers[0] is an HttpProxy *)
-Lemma secure_web_proxy_outer ca sa h options :
-  let r := alpn_select_callback (tls_start_client_app_data 2 true ca sa h) options in
+(* secure web proxy outer connection: whenever the hook's test fires, only http/1.1 *)
+Lemma secure_web_proxy_outer fixed layers ca sa h options :
+  is_outer fixed layers = true ->
+  let r := alpn_select_callback (tls_start_client_app_data fixed layers ca sa h) options in
   r = Sel lit_http11 \/ r = NO_OVERLAPPING_PROTOCOLS.
-Proof. cbv zeta. apply client_alpn_only. reflexivity. Qed.
+Proof.
+  intros E. cbv zeta. apply client_alpn_only. unfold tls_start_client_app_data. rewrite E. reflexivity.
+Qed.
 
-Lemma app_data_not_outer n l0 ca sa h :
-  (n =? 2) && l0 = false ->
-  tls_start_client_app_data n l0 ca sa h = {| client_alpn := ca; server_alpn := sa; http2 := h |}.
+(* current code: the test fires on the two-layer stack of the unit test ... *)
+Lemma outer_orig_two_layers k1 : is_outer false [LHttpProxy; k1] = true.
+Proof. reflexivity. Qed.
+
+(* ... but NOT on the stack NextLayer really builds for a secure web proxy
+   (HttpProxy, ClientTLSLayer, HttpLayer): h2 is selected on the outer connection *)
+Lemma secure_web_proxy_real_stack_orig_refuted :
+  exists options,
+    is_outer false [LHttpProxy; LClientTLS; LOther] = false
+    /\ alpn_select_callback (tls_start_client_app_data false [LHttpProxy; LClientTLS; LOther] None None true) options
+       = Sel lit_h2.
+Proof. exists [lit_h2; lit_http11]. split; reflexivity. Qed.
+
+(* repaired code: fires on every stack that starts with HttpProxy and has no ClientTLSLayer
+   beyond index 1 (the TLS layer being started is the one directly on the proxy mode) ... *)
+Lemma outer_fixed_real_stack k1 rest :
+  existsb is_client_tls rest = false -> is_outer true (LHttpProxy :: k1 :: rest) = true.
+Proof. intros E. cbn. rewrite E. reflexivity. Qed.
+
+(* ... and not on a tunnelled (inner) connection, whose stack has a later ClientTLSLayer,
+   nor in any other proxy mode *)
+Lemma outer_fixed_not_inner k0 k1 rest :
+  existsb is_client_tls rest = true \/ k0 <> LHttpProxy -> is_outer true (k0 :: k1 :: rest) = false.
+Proof.
+  intros [E|E]; cbn.
+  - rewrite E. apply andb_false_r.
+  - destruct k0; try reflexivity. congruence.
+Qed.
+
+Lemma app_data_not_outer fixed layers ca sa h :
+  is_outer fixed layers = false ->
+  tls_start_client_app_data fixed layers ca sa h = {| client_alpn := ca; server_alpn := sa; http2 := h |}.
 Proof. intros E. unfold tls_start_client_app_data. rewrite E. reflexivity. Qed.
+
+(* ---------------------------------------------------------------- ClientTLSLayer.__init__ (TLS over TLS) *)
+(* a second client TLS layer on the same connection starts from a clean ALPN state: the generated
+   reset list contains alpn and alpn_offers *)
+Lemma nested_reset st :
+  c_tls st = true ->
+  c_alpn (client_tls_layer_init st) = None
+  /\ c_alpn_offers (client_tls_layer_init st) = []
+  /\ c_tls (client_tls_layer_init st) = true.
+Proof.
+  intros E. unfold client_tls_layer_init. rewrite E. cbn [c_alpn c_alpn_offers c_tls].
+  repeat split; vm_compute; reflexivity.
+Qed.
+
+Lemma first_layer_keeps st :
+  c_tls st = false ->
+  client_tls_layer_init st = {| c_tls := true; c_alpn := c_alpn st; c_alpn_offers := c_alpn_offers st |}.
+Proof. intros E. unfold client_tls_layer_init. rewrite E. reflexivity. Qed.
 
 (* ---------------------------------------------------------------- tls_start_server and reachability *)
 Lemma offers_falsy_pre pre offers h :
@@ -247,38 +297,73 @@ Proof.
 Qed.
 
 (* the AppData that tls_start_client builds when client.alpn is still unset (ClientTLSLayer resets it) *)
-Lemma no_h2_when_disabled_system n l0 sa options :
+Lemma no_h2_when_disabled_system fixed layers sa options :
   reach options false sa ->
-  alpn_select_callback (tls_start_client_app_data n l0 None sa false) options <> Sel lit_h2.
+  alpn_select_callback (tls_start_client_app_data fixed layers None sa false) options <> Sel lit_h2.
 Proof.
   intros Hr. apply no_h2_when_disabled; [reflexivity| |exact Hr].
   unfold tls_start_client_app_data. cbn [client_alpn].
-  destruct ((n =? 2) && l0); [right|left]; reflexivity.
+  destruct (is_outer fixed layers); [right|left]; reflexivity.
 Qed.
 
 (* ---------------------------------------------------------------- end to end, OpenSSL as a contract *)
 Lemma end_to_end (upstream_select : list bytes -> bytes) :
   (forall l, upstream_select l = [] \/ In (upstream_select l) l) ->
-  forall n l0 h options pre,
-    (n =? 2) && l0 = false -> py_truthy_offers pre = false ->
+  forall fixed layers h options pre,
+    is_outer fixed layers = false -> py_truthy_offers pre = false ->
     let s := upstream_select (tls_start_server_offers pre options h) in
-    let r := alpn_select_callback (tls_start_client_app_data n l0 None (Some s) h) options in
+    let r := alpn_select_callback (tls_start_client_app_data fixed layers None (Some s) h) options in
     (s <> [] -> r = Sel s) /\ (s = [] -> r = NO_OVERLAPPING_PROTOCOLS)
     /\ (h = false -> r <> Sel lit_h2).
 Proof.
-  intros Hsel n l0 h options pre Hn Hpre. cbv zeta.
+  intros Hsel fixed layers h options pre Hn Hpre. cbv zeta.
   rewrite (offers_falsy_pre pre options h Hpre).
   set (s := upstream_select (tls_start_server_offers None options h)).
   assert (Hr : reach options h (Some s)).
   { destruct (Hsel (tls_start_server_offers None options h)) as [E|Hin].
     - fold s in E. rewrite E. exact I.
     - fold s in Hin. destruct s; [exact I|exact Hin]. }
-  rewrite (app_data_not_outer n l0 None (Some s) h Hn).
+  rewrite (app_data_not_outer fixed layers None (Some s) h Hn).
   destruct (upstream_known_exact {| client_alpn := None; server_alpn := Some s; http2 := h |}
               options s eq_refl eq_refl Hr) as [H1 H2].
   repeat split; [exact H1|exact H2|].
   intros ->. apply no_h2_when_disabled; [reflexivity|left; reflexivity|exact Hr].
 Qed.
+
+(* ---------------------------------------------------------------- nested client TLS, end to end *)
+(* Outer TLS is established on the client connection (c_tls, any stale alpn/alpn_offers), then the inner
+   ClientTLSLayer is constructed and tls_start_client runs for the tunnelled connection (a stack the
+   secure-web-proxy test does not fire on) with a known, reachable upstream protocol. *)
+Lemma nested_upstream_known st fixed layers h options s :
+  c_tls st = true -> is_outer fixed layers = false -> reach options h (Some s) ->
+  let r := alpn_select_callback
+             (tls_start_client_app_data fixed layers (c_alpn (client_tls_layer_init st)) (Some s) h) options in
+  (r = Sel s \/ r = NO_OVERLAPPING_PROTOCOLS)
+  /\ (s <> [] -> r = Sel s) /\ (s = [] -> r = NO_OVERLAPPING_PROTOCOLS)
+  /\ (h = false -> r <> Sel lit_h2).
+Proof.
+  intros Et Eo Hr. cbv zeta. destruct (nested_reset st Et) as [Ea _]. rewrite Ea.
+  rewrite (app_data_not_outer fixed layers None (Some s) h Eo).
+  set (ad := {| client_alpn := None; server_alpn := Some s; http2 := h |}).
+  destruct (upstream_known_full ad options s eq_refl eq_refl Hr) as [H0 [H1 H2]].
+  repeat split; [exact H0|exact H1|exact H2|].
+  intros ->. apply no_h2_when_disabled; [reflexivity|left; reflexivity|exact Hr].
+Qed.
+
+Definition stale_outer_state : client_tls_state :=
+  {| c_tls := true; c_alpn := Some lit_http11; c_alpn_offers := [lit_http11] |}.
+Definition inner_stack : list layer_kind := [LHttpProxy; LClientTLS; LOther; LOther; LClientTLS].
+
+Lemma nested_nonvacuous :
+  is_outer false inner_stack = false /\ is_outer true inner_stack = false
+  /\ reach [lit_h2; lit_http11] true (Some lit_h2)
+  /\ alpn_select_callback
+       (tls_start_client_app_data false inner_stack (c_alpn (client_tls_layer_init stale_outer_state)) (Some lit_h2) true)
+       [lit_h2; lit_http11] = Sel lit_h2
+  /\ alpn_select_callback
+       (tls_start_client_app_data false inner_stack (c_alpn stale_outer_state) (Some lit_h2) true)
+       [lit_h2; lit_http11] = Sel lit_http11.
+Proof. repeat split; vm_compute; auto. Qed.
 
 (* ---------------------------------------------------------------- without server/client preset *)
 Lemma default_first_match ad options :
@@ -314,11 +399,11 @@ Proof. exists (ad_h2_known false), [lit_h2; lit_http11]. repeat split. Qed.
 (* ---------------------------------------------------------------- satisfiable, non-trivial *)
 Lemma nonvacuous :
   reach [lit_h2; lit_http11] true (Some lit_h2)
-  /\ alpn_select_callback (tls_start_client_app_data 4 false None (Some lit_h2) true) [lit_h2; lit_http11] = Sel lit_h2
+  /\ alpn_select_callback (tls_start_client_app_data false [LHttpProxy; LOther; LOther; LClientTLS] None (Some lit_h2) true) [lit_h2; lit_http11] = Sel lit_h2
   /\ tls_start_server_offers None [lit_h2; lit_http11] false = [lit_http11]
   /\ reach [lit_h2; lit_http11] false (Some lit_http11)
-  /\ alpn_select_callback (tls_start_client_app_data 4 false None (Some lit_http11) false) [lit_h2; lit_http11] = Sel lit_http11
-  /\ alpn_select_callback (tls_start_client_app_data 2 true None None true) [lit_h2; lit_http11] = Sel lit_http11.
+  /\ alpn_select_callback (tls_start_client_app_data false [LHttpProxy; LOther; LOther; LClientTLS] None (Some lit_http11) false) [lit_h2; lit_http11] = Sel lit_http11
+  /\ alpn_select_callback (tls_start_client_app_data false [LHttpProxy; LClientTLS] None None true) [lit_h2; lit_http11] = Sel lit_http11.
 Proof. repeat split; vm_compute; auto. Qed.
 
 (* ---------------------------------------------------------------- bounded class sweep (extra) *)
